@@ -13,6 +13,7 @@ def u(x): return ('u', x)
 def t3(a, b, c): return ('t3', a, b, c)
 def s3(a, b, c): return ('s3', a, b, c)
 def m3(a, b, c): return ('m3', a, b, c)
+def at(a, x): return ('at', a, x)
 def w(a, b, c, d): return ('w', a, b, c, d)
 def add(t): return ('add', t)
 def union(s, t): return ('union', s, t)
@@ -59,6 +60,18 @@ QUICK = [
       note='binder directly over a class with a swap symmetry, the bound slot in a symmetric position: both orientations are one term'),
     T('B11', 'Lb', 5, [add(app(k(0, 1), var(2))), add(app(k(0, 1), var(3))), union(app(k(0, 1), var(2)), app(k(0, 1), var(3))), add(k(0, 4)), union(k(0, 1), k(0, 4)), add(app(k(0, 4), var(2)))],
       distinct=[[0, 1, 2, 3, 4]], note='a parent slot becomes redundant by an explicit union while the child keeps it; afterwards a different child loses a slot'),
+    T('T5', 'Lf', 4, [add(f(0, 1)), add(f(2, 3)), union(f(0, 1), f(2, 3)), readd(f(0, 1)), add(f(1, 2))],
+      note='the invocation returned by add/lookup after the class lost own slots: no redundant slot may come back (returned slots, not their canonical form)'),
+    T('B14', 'Lb', 3, [add(u(k(0, 1))), union(k(0, 1), u(k(0, 1))), add(k(0, 2)), union(k(0, 1), k(0, 2)), readd(u(k(0, 1))), add(u(u(k(0, 2))))],
+      note='class that contains a node mentioning the class itself (x = u(x)) then loses a slot: the self-usage must be re-canonicalised'),
+    T('B15', 'Lb', 3, [add(app(var(0), j(1, 1))), add(app(j(1, 1), var(0))), union(app(var(0), j(1, 1)), app(j(1, 1), var(0))), add(var(2)), add(j(2, 2)), union(var(2), j(2, 2)),
+                       add(app(var(0), var(1))), add(app(var(1), var(0)))],
+      note='two nodes of one class become the same shape with exchanged slots after their children are merged: the class gains a symmetry by congruence'),
+    T('B16', 'Lb', 4, [add(t3(0, 1, 2)), add(t3(1, 2, 0)), union(t3(0, 1, 2), t3(1, 2, 0)), add(lam(0, t3(0, 1, 2))), add(lam(0, t3(0, 2, 1))), add(lam(3, t3(1, 2, 3)))],
+      distinct=[[0, 1, 2]], note='binder over a class whose symmetry is a 3-cycle: the rotated body is the same term, the swapped one is not'),
+    T('B17', 'Lb', 3, [add(u(app(u(var(0)), var(1)))), add(app(u(var(0)), var(2))), union(app(u(var(0)), var(1)), app(u(var(0)), var(2))), add(u(var(2))), union(u(var(0)), u(var(2))),
+                       readd(app(u(var(0)), var(1)))],
+      note='a class shrinks twice: first by a union of two of its own instances, then because a child loses its slot; the parent must follow both times'),
 ]
 
 
@@ -112,6 +125,8 @@ RW = [
       distinct=[[0, 1, 2], [3, 4, 5]], late={3: 1, 4: 1, 5: 1}, note='a class with the rotation group C3 learns a transposition in a separate call (C3 -> S3): the call must report a change'),
     T('R7', 'Lf', 5, [add(f(0, 1)), rewrite(rule('forget', f(2, 3), f(4, 3))), probe(f(1, 1)), rewrite(rule('forget', f(2, 3), f(4, 3)))], late={2: 1, 3: 1, 4: 1},
       note='both sides of the rule instance lie in one class with different slot arguments: a slot becomes redundant, nothing else changes'),
+    T('R9', 'Lb', 4, [add(u(k(0, 1))), rewrite(rule('shrink', k(2, 3), j(2, 2)), rule('wrap', u('?x'), app('?x', '?x'))), probe(app(k(0, 1), k(0, 1))), probe(app(j(0, 0), j(0, 0)))], late={2: 1, 3: 1},
+      note='two rules in one call: the first one merges the class bound by a match of the second one into another class; the second match must still be applied'),
 ]
 
 for _t in RW:
@@ -123,6 +138,8 @@ EX = [
     T('X3', 'Lb', 2, [add(k(0, 1)), add(j(0, 1)), union(k(0, 1), j(0, 1)), add(u(k(0, 1))), extract(u(k(0, 1)), 'Weighted'), extract(u(k(0, 1)))], note='class with two leaves of different weight below a parent (k first)'),
     T('X4', 'Lb', 2, [add(j(0, 1)), add(k(0, 1)), union(j(0, 1), k(0, 1)), add(u(k(0, 1))), extract(u(k(0, 1)), 'Weighted')], note='the same with the cheaper leaf inserted first'),
     T('X5', 'Lb', 2, [add(lam(0, app(var(0), var(1)))), add(var(1)), union(lam(0, app(var(0), var(1))), var(1)), extract(lam(0, app(var(0), var(1)))), extract(app(var(0), var(1)))], note='cyclic class under a binder: x = lam a. app(a, x)'),
+    T('X7', 'Lb', 2, [add(at(0, var(0))), add(at(1, var(1))), union(at(0, var(0)), at(1, var(1))), extract(at(0, var(0))), extract(at(1, var(1)), 'Weighted')],
+      note='redundant slot that occurs in a slot field of the cheapest node and in its child: the extracted term must name it consistently'),
 ]
 for _t in EX: _t.light = True
 # --- analyses without a modify hook (min size, depth): data after every operation
